@@ -199,7 +199,21 @@ INTROSPECTION_REQUESTS = [
 ]
 
 
-async def introspection_context_scenario(rng):
+NO_INTROSPECTION_SDL = INTROSPECTION_SDL + "schema @nonIntrospectable { query: Query }\n"
+NO_INTROSPECTION_REQUESTS = [
+    # the refusal of each request carries ITS OWN response key and source position
+    "{ __schema { types { name } } }",
+    "{ meta: __schema { queryType { name } } }",
+    "{\n  thing { open }\n  t: __type(name: \"Query\") { name }\n}",
+    "query Q { a: thing { open }\n\n      s2: __schema { types { name } } }",
+    "{ thing { open level } }",
+    "{ __type(name: \"Thing\") { name } }",
+]
+# what each refusal must point at, independently of anything else the process has done: (response key, line, column)
+NO_INTROSPECTION_EXPECT = [("__schema", 1, 3), ("meta", 1, 3), ("t", 3, 3), ("s2", 3, 7), None, ("__type", 1, 3)]
+
+
+async def introspection_context_scenario(rng, sdl=None, requests=None, roles=("guest", "admin")):
     """a directive whose on_introspection outcome depends on the request's context: what one request's context hides
     must stay visible to the requests of another context, whatever ran before or runs at the same time"""
     from tartiflette import create_engine, Directive, Resolver
@@ -221,13 +235,23 @@ async def introspection_context_scenario(rng):
     async def fresh():
         name = fresh_schema_name("c15intro")
         register(name)
-        return await create_engine(INTROSPECTION_SDL, schema_name=name)
+        return await create_engine(sdl or INTROSPECTION_SDL, schema_name=name)
 
-    reqs = [(q, role) for q in INTROSPECTION_REQUESTS for role in ("guest", "admin")]
+    reqs = [(q, role) for q in (requests or INTROSPECTION_REQUESTS) for role in roles]
     solo = {}
     for q, role in reqs:
         solo[(q, role)] = await (await fresh()).execute(q, context={"role": role})
-    if all(json.dumps(solo[(q, "guest")], sort_keys=True) == json.dumps(solo[(q, "admin")], sort_keys=True) for q in INTROSPECTION_REQUESTS):
+    if requests is NO_INTROSPECTION_REQUESTS:
+        for (q, role), exp in zip(reqs, NO_INTROSPECTION_EXPECT):
+            errs = solo[(q, role)].get("errors") or []
+            want = [] if exp is None else [(exp[0], exp[1], exp[2])]
+            got = [((e.get("path") or [None])[0], (e.get("locations") or [{}])[0].get("line"),
+                    (e.get("locations") or [{}])[0].get("column")) for e in errs]
+            if got != want:
+                problems.append("%s on a fresh engine: errors point at %r, the request's own field is at %r (response %s)" % (
+                    q, got, want, json.dumps(solo[(q, role)])[:300]))
+    if requests is None and all(json.dumps(solo[(q, "guest")], sort_keys=True) == json.dumps(solo[(q, "admin")], sort_keys=True)
+                                for q in INTROSPECTION_REQUESTS):
         problems.append("the context-dependent directive hides nothing (scenario is vacuous)")
     shared = await fresh()
     order = list(reqs)
@@ -352,6 +376,10 @@ def main(tier_, replay=None):
             mism.append((s,) + items[i])
     intro_problems, intro_n = asyncio.run(introspection_context_scenario(rng))
     total_requests += intro_n
+    # a schema with introspection switched off: every refusal is about its own request (key, position)
+    p2, n2 = asyncio.run(introspection_context_scenario(rng, NO_INTROSPECTION_SDL, NO_INTROSPECTION_REQUESTS, roles=("guest",)))
+    intro_problems += ["non-introspectable schema: " + x for x in p2]
+    total_requests += n2
     for pr in intro_problems[:3]:
         rep.violation({"property": "C15", "kind": "the context of one request changes what another request is answered "
                        "(introspection directive depending on the context)", "sdl": INTROSPECTION_SDL, "problem": pr})
